@@ -14,11 +14,24 @@ Record ainv (lo : N) (st : astate) : Prop := {
   ai_lo : lo <= a_index st
 }.
 
-Lemma ainv_entry lo st e : ainv lo st -> ainv lo (handle_entry st e).
+Lemma sticky_entry st e : a_err st <> 0 -> handle_entry st e = st.
+Proof. intros H. unfold handle_entry. apply N.eqb_neq in H. rewrite H. reflexivity. Qed.
+
+Lemma sticky_entries l : forall st, a_err st <> 0 -> fold_left handle_entry l st = st.
+Proof. induction l; simpl; auto. intros st H. rewrite sticky_entry; auto. Qed.
+
+Lemma sticky_task st t : a_err st <> 0 -> handle_task st t = st.
+Proof. intros H. unfold handle_task. apply N.eqb_neq in H. rewrite H. reflexivity. Qed.
+
+Lemma sticky_tasks q : forall st, a_err st <> 0 -> handle_tasks st q = st.
+Proof. unfold handle_tasks. induction q; simpl; auto. intros st H. rewrite sticky_task; auto. Qed.
+
+(* one entry handled without a panic *)
+Lemma ainv_entry lo st e : ainv lo st -> a_err (handle_entry st e) = 0 -> ainv lo (handle_entry st e).
 Proof.
-  intros [Hs Hb Hd Hl]. unfold handle_entry.
+  intros [Hs Hb Hd Hl] He. unfold handle_entry in *.
   destruct (negb (a_err st =? 0)); [constructor; auto|].
-  destruct (negb (a_index st + 1 =? e_index e)) eqn:E; [constructor; auto|].
+  destruct (negb (a_index st + 1 =? e_index e)) eqn:E; [simpl in He; discriminate|].
   apply negb_false_iff in E. apply N.eqb_eq in E.
   match goal with |- ainv _ (mkA _ _ _ (if ?d then _ else _) _) => destruct d eqn:Ed end.
   - constructor; simpl; auto.
@@ -33,24 +46,35 @@ Proof.
     + lia.
 Qed.
 
-Lemma ainv_entries lo l : forall st, ainv lo st -> ainv lo (fold_left handle_entry l st).
-Proof. induction l; simpl; auto. intros st H. apply IHl. apply ainv_entry. auto. Qed.
-
-Lemma ainv_task lo st t : ainv lo st -> ainv lo (handle_task st t).
+Lemma ainv_entries lo l : forall st, ainv lo st -> a_err (fold_left handle_entry l st) = 0 ->
+  ainv lo (fold_left handle_entry l st).
 Proof.
-  intros H. unfold handle_task. destruct (negb (a_err st =? 0)); auto.
+  induction l; simpl; auto. intros st H He.
+  destruct (N.eq_dec (a_err (handle_entry st a)) 0) as [E|E].
+  - apply IHl; auto. apply ainv_entry; auto.
+  - rewrite sticky_entries in He; auto. contradiction.
+Qed.
+
+Lemma ainv_task lo st t : ainv lo st -> a_err (handle_task st t) = 0 -> ainv lo (handle_task st t).
+Proof.
+  intros H He. unfold handle_task in *. destruct (negb (a_err st =? 0)); auto.
   destruct t; auto.
   - destruct (entries_to_apply l (a_index st)).
-    + apply ainv_entries. auto.
-    + destruct H. constructor; auto.
+    + apply ainv_entries; auto.
+    + simpl in He. discriminate.
   - destruct (ss_index <=? a_index st) eqn:E; auto. apply N.leb_gt in E.
     destruct H as [Hs Hb Hd Hl]. constructor; simpl; auto.
     + intros x Hx. destruct (Hb x Hx). lia.
     + lia.
 Qed.
 
-Lemma ainv_tasks lo q : forall st, ainv lo st -> ainv lo (handle_tasks st q).
-Proof. unfold handle_tasks. induction q; simpl; auto. intros st H. apply IHq. apply ainv_task. auto. Qed.
+Lemma ainv_tasks lo q : forall st, ainv lo st -> a_err (handle_tasks st q) = 0 -> ainv lo (handle_tasks st q).
+Proof.
+  unfold handle_tasks. induction q; simpl; auto. intros st H He.
+  destruct (N.eq_dec (a_err (handle_task st a)) 0) as [E|E].
+  - apply IHq; auto. apply ainv_task; auto.
+  - pose proof (sticky_tasks q (handle_task st a) E) as X. unfold handle_tasks in X. rewrite X in He. contradiction.
+Qed.
 
 Lemma ainv_start applied init disk : ainv applied (a_start applied init disk).
 Proof. constructor; simpl; auto; try contradiction. constructor. lia. Qed.
@@ -70,18 +94,20 @@ Qed.
 
 Theorem update_indexes_strictly_increasing_proved :
   forall applied init disk q,
+  a_err (handle_tasks (a_start applied init disk) q) = 0 ->
   StronglySorted (fun a b => fst a < fst b) (calls_of (handle_tasks (a_start applied init disk) q)).
 Proof.
-  intros. unfold calls_of. apply sorted_rev_lt.
-  apply (ainv_tasks applied q _ (ainv_start applied init disk)).
+  intros applied init disk q He. unfold calls_of. apply sorted_rev_lt.
+  apply (ainv_tasks applied q _ (ainv_start applied init disk) He).
 Qed.
 
 Theorem ondisk_never_at_or_below_open_index_proved :
   forall applied init q x,
+  a_err (handle_tasks (a_start applied init true) q) = 0 ->
   In x (calls_of (handle_tasks (a_start applied init true) q)) -> init < fst x /\ applied < fst x.
 Proof.
-  intros applied init q x Hx. unfold calls_of in Hx. apply in_rev in Hx.
-  pose proof (ainv_tasks applied q _ (ainv_start applied init true)) as [Hs Hb Hd Hl].
+  intros applied init q x He Hx. unfold calls_of in Hx. apply in_rev in Hx.
+  pose proof (ainv_tasks applied q _ (ainv_start applied init true) He) as [Hs Hb Hd Hl].
   assert (Hdk : a_disk (handle_tasks (a_start applied init true) q) = true).
   { clear. unfold handle_tasks. generalize (a_start applied init true) (eq_refl : a_disk (a_start applied init true) = true).
     induction q; simpl; auto. intros st Hst. apply IHq.
